@@ -304,11 +304,33 @@ fn fam_lincomb<const N: usize>(ctx: &Ctx) {
         chk!(cs, "MontyForm::lincomb_vartime", &exp, Out::v(&w(&MontyForm::lincomb_vartime(&refs).retrieve())));
         chk!(cs, "MontyForm:Monty::lincomb_vartime", &exp, Out::v(&w(&<MontyForm<N> as Monty>::lincomb_vartime(&refs).retrieve())));
         chk!(cs, "sum of products (MontyForm)", &exp, Out::v(&w(&xs.iter().fold(MontyForm::zero(params), |acc, (x, y)| acc + x * y).retrieve())));
+        // the stored representative must be canonical too (retrieve() alone reduces a too-large accumulator away)
+        cs.group();
+        chk!(cs, "MontyForm::lincomb_vartime (representative < m)", &Out::Val(vec![1]), Out::Val(vec![(to_big(&w(MontyForm::lincomb_vartime(&refs).as_montgomery())) < *m) as u64]));
+        cs.group();
         let bparams = BoxedMontyParams::new_vartime(Odd::new(bx(&ml)).unwrap());
         let bxs: Vec<(BoxedMontyForm, BoxedMontyForm)> = av.iter().zip(&bv).map(|(x, y)| (BoxedMontyForm::new(bx(&from_big(x, N)), bparams.clone()), BoxedMontyForm::new(bx(&from_big(y, N)), bparams.clone()))).collect();
         let brefs: Vec<(&BoxedMontyForm, &BoxedMontyForm)> = bxs.iter().map(|(x, y)| (x, y)).collect();
         chk!(cs, "BoxedMontyForm::lincomb_vartime", &exp, Out::v(&bw(&BoxedMontyForm::lincomb_vartime(&brefs).retrieve())));
         chk!(cs, "BoxedMontyForm:Monty::lincomb_vartime", &exp, Out::v(&bw(&<BoxedMontyForm as Monty>::lincomb_vartime(&brefs).retrieve())));
+        cs.group();
+        chk!(cs, "BoxedMontyForm::lincomb_vartime (representative < m)", &Out::Val(vec![1]), Out::Val(vec![(to_big(&bw(BoxedMontyForm::lincomb_vartime(&brefs).as_montgomery())) < *m) as u64]));
+        // parameter sets built by the constant-time constructors and parameter sets that went through constant-time
+        // selection must drive lincomb exactly like new_vartime's (the accumulation window is derived from them)
+        if pat == 0 && t <= 6 {
+            use crypto_bigint::subtle::{Choice, ConditionallySelectable};
+            cs.group();
+            let other = MontyParams::<N>::new_vartime(Odd::new(u::<N>(&from_big(&BigUint::from(3u32), N))).unwrap());
+            let sel = MontyParams::conditional_select(&other, &params, Choice::from(1));
+            let xs2: Vec<(MontyForm<N>, MontyForm<N>)> = av.iter().zip(&bv).map(|(x, y)| (MontyForm::new(&u::<N>(&from_big(x, N)), sel), MontyForm::new(&u::<N>(&from_big(y, N)), sel))).collect();
+            let refs2: Vec<(&MontyForm<N>, &MontyForm<N>)> = xs2.iter().map(|(x, y)| (x, y)).collect();
+            chk!(cs, "MontyForm::lincomb_vartime (params via conditional_select)", &exp, Out::v(&w(&MontyForm::lincomb_vartime(&refs2).retrieve())));
+            cs.group();
+            let bctp = BoxedMontyParams::new(Odd::new(bx(&ml)).unwrap());
+            let bxs3: Vec<(BoxedMontyForm, BoxedMontyForm)> = av.iter().zip(&bv).map(|(x, y)| (BoxedMontyForm::new(bx(&from_big(x, N)), bctp.clone()), BoxedMontyForm::new(bx(&from_big(y, N)), bctp.clone()))).collect();
+            let brefs3: Vec<(&BoxedMontyForm, &BoxedMontyForm)> = bxs3.iter().map(|(x, y)| (x, y)).collect();
+            chk!(cs, "BoxedMontyForm::lincomb_vartime (params via BoxedMontyParams::new)", &exp, Out::v(&bw(&BoxedMontyForm::lincomb_vartime(&brefs3).retrieve())));
+        }
     });
 }
 
